@@ -187,7 +187,7 @@ def main():
     scns = scenrun.enumerate_scenarios(rep, "MC_XDask", cfg(rep.tier), f"c12_{rep.tier}")
     findings = scenrun.evaluate(rep, scns, evaluate, procs=min(a.procs, 8), chunksize=2)
     scenrun.report(rep, findings, TAGS)
-    lifecycle_part(rep, a, TAGS, QUICK, THOROUGH, DEVS, quick_paths=16)
+    lifecycle_part(rep, a, TAGS, QUICK, THOROUGH, DEVS, quick_paths=16, trace_worlds=[("EOF", False, True, False)], trace_num=6)
     rep.exhaustive = True
     rep.extra["rule"] = "every (class, chunk layout, scheduler, compute, check_nans) of XDask plus lifecycle paths in dask worlds; non-trivial = chunked along at least one dimension"
     rep.extra["distinct_nontrivial"] = sum(1 for s in scns if s["cfg"]["chunks"] != "single")
